@@ -9,6 +9,9 @@ pub struct Streamed {
     pub delay: usize,
     /// (input frames consumed, output frames produced) per call
     pub calls: Vec<(usize, usize)>,
+    /// first call after which output_delay() differed from the value read before the stream
+    /// (the ratio is constant over the stream): (call index, value)
+    pub delay_changed: Option<(usize, usize)>,
 }
 
 /// Feed `x` (single channel, replicated to all channels) through the resampler in its natural
@@ -54,6 +57,7 @@ pub fn resample_all_opts<T: Flt>(cfg: &Cfg, x: &[f64], pre: Option<f64>, ramp: b
     let mut obuf: Vec<Vec<T>> = r.output_buffer_allocate(true);
     let mut ibuf: Vec<Vec<T>> = vec![Vec::new(); n];
     let mut calls = Vec::new();
+    let mut delay_changed: Option<(usize, usize)> = None;
     loop {
         let need = r.input_frames_next();
         if pos + need > x.len() {
@@ -74,6 +78,9 @@ pub fn resample_all_opts<T: Flt>(cfg: &Cfg, x: &[f64], pre: Option<f64>, ramp: b
             .map_err(|e| format!("process_into_buffer failed at input frame {}: {}", pos, e))?;
         out.extend(obuf[0][..o].iter().map(|v| v.to64()));
         calls.push((i, o));
+        if delay_changed.is_none() && r.output_delay() != delay {
+            delay_changed = Some((calls.len() - 1, r.output_delay()));
+        }
         pos += i;
         if i == 0 && o == 0 {
             return Err("no progress".into());
@@ -84,6 +91,7 @@ pub fn resample_all_opts<T: Flt>(cfg: &Cfg, x: &[f64], pre: Option<f64>, ramp: b
         consumed: pos,
         delay,
         calls,
+        delay_changed,
     })
 }
 
